@@ -5,6 +5,7 @@ one link variable with the table's own coefficients); R09.3 totals are sums over
 set-up data is never taken from link 0 by shortcut where a link is selected.  Not decided: that the number of links, the
 lengths and the contents found by the bisection are right for a given file."""
 import absint
+import cfg
 import k8
 from absint import V
 from facts import AnalysisBroken
@@ -344,6 +345,87 @@ def r09_6(chk, P):
     return n
 
 
+def r09_7(chk, P):
+    chk.rule('R09.7', 'the downward link search ends on a link: where a per-link table is subscripted, after the loop, by the '
+             'variable L of a search `for(L=links-1; L>=0; L--){ total-=length(L); if(X>=total)break; }`, L is provably '
+             'non-negative at the subscript (K4), or the searched value X is provably non-negative when the test is made '
+             '(lemma: the remaining total is 0 at link 0, so the search stops there at the latest).  A search entered with a '
+             'possibly negative X (the position -1 left by a failed seek) runs off the tables: vi[-1]')
+    import absint
+    sk = k8.Skel(P, 'r')
+    n = 0
+    for F in P.functions():
+        if not F.file.endswith('vorbisfile.c'):
+            continue
+        loops = cfg.loops(F)
+        searches = []        # (header, L var id, body, [(cond node, X expr id)])
+        for h, body in loops.items():
+            t = F.blocks[h].get('term')
+            if not t or t.get('cond') is None:
+                continue
+            c = F.ex[F.strip_casts(t['cond'])]
+            if not (c['k'] == 'bin' and c['op'] == '>=' and common.is_zero(F, c['c'][1])):
+                continue
+            lv = F.ex[F.strip_casts(c['c'][0])]
+            if lv['k'] != 'ref' or lv['decl'].get('kind') != 'var':
+                continue
+            tests = []
+            for b in body:
+                if b == h:
+                    continue
+                tb = F.blocks[b].get('term')
+                if not tb or tb.get('cond') is None or len(F.blocks[b]['succs']) != 2:
+                    continue
+                cn = F.ex[F.strip_casts(tb['cond'])]
+                if cn['k'] == 'bin' and cn['op'] in ('>=', '<=') and F.blocks[b]['succs'][0] not in body:
+                    x = cn['c'][0] if cn['op'] == '>=' else cn['c'][1]
+                    tests.append((F.strip_casts(tb['cond']), F.strip_casts(x)))
+            if tests:
+                searches.append((h, lv['decl']['id'], body, tests))
+        if not searches:
+            continue
+        acc = [(node, tab, idx) for (node, tab, idx) in table_accesses(P, F) if idx is not None]
+        uses = []
+        for (h, lid, body, tests) in searches:
+            for (node, tab, idx) in acc:
+                if F.pos[node][0] in body:
+                    continue
+                if any(F.ex[x]['k'] == 'ref' and F.ex[x]['decl'].get('id') == lid for x in F.walk(idx)) and \
+                        cfg.search(F, (h, -1), lambda q, node=node: q == node, lambda q: False) is not None:
+                    uses.append((node, tab, idx, h, lid, tests))
+        if not uses:
+            continue
+        lvals, xvals = {}, {}
+
+        def obs(A, env, e, v):
+            for (node, tab, idx, h, lid, tests) in uses:
+                if e == node:
+                    lvals[node] = absint.join(lvals.get(node), env.get(f'v{lid}') or absint.TOP)
+                for (cnode, x) in tests:
+                    if e == cnode:
+                        xvals[cnode] = absint.join(xvals.get(cnode), A.peek(env, x))
+        A = absint.Analyzer(P, F)
+        A.observers.append(obs)
+        A.run()
+        for i, (node, tab, idx, h, lid, tests) in enumerate(sorted(uses, key=lambda u: F.ex[u[0]]['loc'])):
+            lv = lvals.get(node)
+            nm = F.vars.get(lid, {}).get('name', '?')
+            if lv is None:
+                continue
+            n += 1
+            if lv.lo >= 0:
+                chk.ob('R09.7', F.name, f'{tab}[{F.s(idx)}]#{i}', True, F.where(node), f'{nm} is {lv} at the subscript')
+                continue
+            xs = [(c_, xvals.get(c_)) for (c_, x) in tests]
+            lemma = bool(xs) and all(xv is not None and xv.lo >= 0 for (_, xv) in xs)
+            chk.ob('R09.7', F.name, f'{tab}[{F.s(idx)}]#{i}', lemma, F.where(node),
+                   f'searched value {[str(xv) for _, xv in xs]} is non-negative at the test: the search stops at link 0 at the latest'
+                   if lemma else
+                   f'{nm} can be -1 here ({lv}): the search over the links is entered with a value that may be negative '
+                   f'({[F.s(x) + " is " + str(xvals.get(c_)) for (c_, x) in tests]}), no link matches and the loop runs off the table')
+    return n
+
+
 def _constv(F, e):
     nd = F.ex[F.strip_casts(e)]
     if nd['k'] == 'int':
@@ -355,6 +437,8 @@ def _constv(F, e):
 
 
 def run(chk, P):
+    r09_7(chk, P)
+    chk.floor('R09.7', 4)
     r09_6(chk, P)
     chk.floor('R09.6', 3)
     r09_1(chk, P)
